@@ -207,6 +207,9 @@ class Interp:
         # as a taint and raise only when control flow / a subscript
         # depends on them (used by C09/C13)
         self.propagate_poison = False
+        # None: undefined locals are POISON; or {'int': v, 'real': Fraction,
+        # 'log': bool}: they start with these sentinel values
+        self.uninit = None
 
     # ------------------------------------------------------------------
     # storage access
@@ -340,6 +343,10 @@ class Interp:
                 ubd = self.eval(dim.upper, frame)
                 bounds.append((lbd, ubd))
         arr = Arr(typ, bounds, name=sym.name, bits=bits)
+        if self.uninit is not None and sym.initial_value is None:
+            # never-assigned locals get a concrete sentinel instead of
+            # POISON (mirrors gfortran -finit-integer/-finit-real)
+            arr.data = [self.uninit[typ]] * arr.size
         if sym.initial_value is not None:
             val = self.eval(sym.initial_value, frame)
             if isinstance(val, AVal):
